@@ -178,6 +178,94 @@ SESSION_RULE = ('operation scripts on the real Session/SessionWriter (sequential
                 'the C01 queue model; non-trivial = script with a channel replacement or a two-piece batch or a rotation; distinct by script')
 
 
+def gen_inject_script(rng):
+    """a session script in which the ops that FOLLOW a consume/rotate/registration are injected into it: the harness runs them
+    at the first mutex unlock inside that op (see harness/session_harness.cpp).  Returns (sequential line, injected line,
+    permutation mapping positions of the injected line to positions of the sequential line)"""
+    base = gen_session_script(rng, rotations=True)
+    head, ops = base.split(' | ')[0], base.split(' | ')[1:]
+    # where can we inject: after a host op, a run of ops that do not themselves need the harness' bookkeeping
+    live, nsrc, hosts = set(), 0, []
+    state = []
+    for i, o in enumerate(ops):
+        t = o.split(' ')
+        state.append((set(live), nsrc))
+        if t[0] == 'cw': live.add(int(t[1]))
+        elif t[0] == 'dw': live.discard(int(t[1]))
+        elif t[0] == 'src': nsrc += 1
+        if t[0] in ('consume', 'rotate', 'src', 'cs') and i + 1 < len(ops):
+            hosts.append(i)
+    if not hosts:
+        return None
+    h = rng.choice([i for i in hosts if ops[i].startswith('consume')] or hosts)
+    live_h, nsrc_h = state[h + 1] if h + 1 < len(state) else (live, nsrc)
+    inj = []
+    if live_h and rng.random() < 0.7:
+        # a log statement executed for the first time by a thread that was waiting for the mutex: registration + event
+        w = rng.choice(sorted(live_h))
+        inj.append('src %d %s %s %s %d %s %s' % (rng.choice(G.SEVERITIES), b'inj'.hex(), b'fn'.hex(), b'f.cpp'.hex(), rng.randrange(200), b'm {}'.hex(), b'I'.hex()))
+        inj.append('log %d %d %d %s' % (w, nsrc_h + 1, rng.randrange(1000), struct.pack('<II', w, 100000 + rng.randrange(1000)).hex()))
+        if rng.random() < 0.4 and len(live_h) > 1:
+            w2 = rng.choice(sorted(live_h - {w}))
+            inj.append('log %d %d %d %s' % (w2, nsrc_h + 1, rng.randrange(1000), struct.pack('<II', w2, 100000 + rng.randrange(1000)).hex()))
+    tail = ops[h + 1:]
+    k = 0
+    if not inj:
+        while k < len(tail) and k < 3 and tail[k].split(' ')[0] in ('src', 'log', 'cw', 'dw', 'sname', 'sid'):
+            k += 1
+        if k == 0:
+            return None
+        inj, tail = tail[:k], tail[k:]
+    seq_ops = ops[:h] + [ops[h]] + inj + tail
+    inj_ops = ops[:h] + ['@' + x for x in inj] + [ops[h]] + tail
+    n = len(inj)
+    perm = list(range(h)) + [h + 1 + j for j in range(n)] + [h] + list(range(h + 1 + n, len(seq_ops)))
+    return head + ' | ' + ' | '.join(seq_ops), head + ' | ' + ' | '.join(inj_ops), perm
+
+
+def inject_stream(ctx, prop):
+    """operations that wait for the session mutex run at the first unlock inside consume/rotate/registration: equal to the
+    sequential run as long as the mutex is held for the whole body"""
+    exe = build_harness('session_harness', link_repo=False)
+    rng = random.Random(ctx.seed * 1000003 + 303)
+    n = cases_count(ctx, 600, 12000)
+    cases = []
+    while len(cases) < n:
+        c = gen_inject_script(rng)
+        if c:
+            cases.append(c)
+    rc, impl_raw, err = run_lines(exe, [c[1] for c in cases])
+    rc2, model, err2 = run_lines(driver_path(), [c[0] for c in cases])
+    fails, mism = 0, 0
+    for i, (seq_line, inj_line, perm) in enumerate(cases):
+        if i >= len(impl_raw):
+            break
+        segs = impl_raw[i].split(';')
+        if len(segs) != len(perm):
+            continue
+        out = [None] * len(perm)
+        for pos, seg in enumerate(segs):
+            out[perm[pos]] = seg
+        impl = ';'.join(out)
+        f = analyse(seq_line, impl)
+        what = f.get(prop) or f.get('ALL')
+        if what:
+            fails += 1
+            if fails <= 3:
+                ctx.violation('%s-inject-%s' % (prop.lower(), hashlib.sha256(inj_line.encode()).hexdigest()[:10]),
+                              '%s: with operations of other threads running where the operation gives up the session mutex: %s' % (prop, what),
+                              {'kind': 'schedule', 'input_line': inj_line, 'impl': impl_raw[i],
+                               'how_to_read': 'ops marked @ run at the first mutex unlock inside the next unmarked op (harness/session_harness.cpp)'})
+        elif i < len(model) and impl != model[i]:
+            mism += 1
+            if mism <= 3:
+                ctx.violation('corr-session_inject-%d' % i, 'correspondence session_inject broke: with waiting operations let in at the first unlock, the real code differs from the model in which the operation is one atomic step',
+                              {'kind': 'correspondence', 'stream': 'session_inject', 'input_line': inj_line, 'sequential_line': seq_line, 'impl': impl, 'model': model[i],
+                               'broken': 'correspondence stream session_inject / atomicity of the locked Session methods (Generated.lockedMethods_match)'}, found_input=False)
+    ctx.streams['session_inject'] = {'cases': len(cases), 'property_failures': fails, 'mismatches': mism, 'impl_rc': rc, 'model_rc': rc2}
+    return fails
+
+
 def session_check(ctx, module, theorems, prop, rotations=True, extra=None):
     ok = proof_step(ctx, module, theorems, extra_targets=extra)
     exe = build_harness('session_harness', link_repo=False)
@@ -198,27 +286,33 @@ def session_check(ctx, module, theorems, prop, rotations=True, extra=None):
         if 'rotate' in l or 'polled=2' in impl[i] or 'polled=3' in impl[i]:
             nontrivial.add(l)
     report_corr(ctx, 'session_ops', lines, impl, model, mism, prop_fail)
+    if inject_stream(ctx, prop):
+        prop_fail.add('inject')
     finish_proof(ctx, ok, bool(prop_fail))
     ctx.coverage.update({'evaluations': len(lines), 'distinct_nontrivial': len(nontrivial),
-                         'traces_validated_against_impl': len(lines) - len(mism), 'rule': SESSION_RULE})
+                         'traces_validated_against_impl': len(lines) - len(mism), 'rule': SESSION_RULE +
+                         '; plus scripts in which the operations of threads waiting for the session mutex (first-time log statements: registration + '
+                         'event, renames, writer creation/destruction) are run at the first mutex unlock inside consume / reconsumeMetadata / '
+                         'addEventSource / setClockSync (stream session_inject)'})
     ctx.samples = [lines[0][:400]]
     return ctx.finish()
 
 
 C11_THEOREMS = ['BinlogVerif.C11.c11_whole_entries', 'BinlogVerif.C11.c11_writer_prop', 'BinlogVerif.C11.c11_byte_counts',
                 'BinlogVerif.C11.c11_byte_counts_reconsume', 'BinlogVerif.C11.c11_consume_stream',
-                'BinlogVerif.C01.c01_pieces_whole_commits']
+                'BinlogVerif.C01.c01_pieces_whole_commits', 'BinlogVerif.Generated.lockedMethods_match', 'BinlogVerif.Generated.session_structure']
 C02_THEOREMS = ['BinlogVerif.C02.c02_exactly_once_in_order', 'BinlogVerif.C02.c02_accepted_is_what_was_logged',
                 'BinlogVerif.C02.c02_delivered_prefix', 'BinlogVerif.C02.c02_delivered_by_next_consume',
                 'BinlogVerif.C02.c02_loss_without_sync', 'BinlogVerif.Generated.session_structure',
                 'BinlogVerif.Generated.lockedMethods_match']
 C03_THEOREMS = ['BinlogVerif.C03.c03_source_before_event', 'BinlogVerif.C03.c03_ids_distinct', 'BinlogVerif.C03.c03_each_source_once',
-                'BinlogVerif.Sess.metaInv_exec']
+                'BinlogVerif.Sess.metaInv_exec', 'BinlogVerif.Generated.lockedMethods_match', 'BinlogVerif.Generated.session_structure']
 C13_THEOREMS = ['BinlogVerif.C13.c13_self_contained', 'BinlogVerif.C13.c13_rotation_writes_metadata',
-                'BinlogVerif.C13.c13_partition', 'BinlogVerif.C13.c13_no_loss_no_dup']
+                'BinlogVerif.C13.c13_partition', 'BinlogVerif.C13.c13_no_loss_no_dup',
+                'BinlogVerif.Generated.lockedMethods_match', 'BinlogVerif.Generated.session_structure']
 
 
-def check_c11(ctx): return session_check(ctx, 'BinlogVerif.Props.C11', C11_THEOREMS, 'C11', extra=['BinlogVerif.Props.C01'])
+def check_c11(ctx): return session_check(ctx, 'BinlogVerif.Props.C11', C11_THEOREMS, 'C11', extra=['BinlogVerif.Props.C01', 'BinlogVerif.Generated.Session'])
 def gen_ra_script(rng):
     """threads: each writer is its own logical thread (id = writer number), thread 0 registers sources, thread 7 consumes
     with a random staleness policy; the last consume is sequentially consistent and happens after everything"""
@@ -377,8 +471,8 @@ def check_c02(ctx):
     ctx.samples = [lines[0][:300], rlines[0][:400]]
     ctx.assumptions.append('C++11 release/acquire as the view-based operational semantics (RC11 without load buffering); interleaving at the granularity of API calls plus arbitrary reads-from')
     return ctx.finish()
-def check_c03(ctx): return session_check(ctx, 'BinlogVerif.Props.C03', C03_THEOREMS, 'C03')
-def check_c13(ctx): return session_check(ctx, 'BinlogVerif.Props.C13', C13_THEOREMS, 'C13')
+def check_c03(ctx): return session_check(ctx, 'BinlogVerif.Props.C03', C03_THEOREMS, 'C03', extra=['BinlogVerif.Generated.Session'])
+def check_c13(ctx): return session_check(ctx, 'BinlogVerif.Props.C13', C13_THEOREMS, 'C13', extra=['BinlogVerif.Generated.Session'])
 
 
 CHECKS = {'C11': check_c11, 'C02': check_c02, 'C03': check_c03, 'C13': check_c13}
@@ -471,17 +565,18 @@ CHECKS['C19'] = check_c19
 C10_THEOREMS = ['BinlogVerif.C10.c10_lockset_race_free', 'BinlogVerif.C10.c10_table_obeys', 'BinlogVerif.C10.c10_table_sound',
                 'BinlogVerif.Generated.session_disciplined', 'BinlogVerif.Generated.lockedMethods_match',
                 'BinlogVerif.Generated.session_structure', 'BinlogVerif.C01.c01_race_free',
-                'BinlogVerif.Generated.queueOrders_sufficient', 'BinlogVerif.Generated.code_race_free']
+                'BinlogVerif.Generated.queueOrders_sufficient', 'BinlogVerif.Generated.code_race_free',
+                'BinlogVerif.Generated.queueAccesses_match', 'BinlogVerif.Generated.queuePlainAccesses_match']
 
 
 def build_tsan():
     src = os.path.join(VERIF, 'harness', 'tsan_scenarios.cpp')
     hh = file_hash([src] + repo_sources())
-    exe = os.path.join(BUILD, 'bin', 'tsan_scenarios-%s' % hh)
+    exe = os.path.join(BUILD, 'bin', 'tsan_scenarios-O0-%s' % hh)   # -O0: at -O1 gcc sinks or removes plain loads before TSan instruments them
     if os.path.exists(exe):
         return exe
     os.makedirs(os.path.dirname(exe), exist_ok=True)
-    rc, out = sh(['g++', '-std=c++17', '-O1', '-g', '-fsanitize=thread', '-Wno-tsan', '-D' + HOOK_GUARD, '-I' + os.path.join(REPO, 'include'), src,
+    rc, out = sh(['g++', '-std=c++17', '-O0', '-g', '-fsanitize=thread', '-Wno-tsan', '-D' + HOOK_GUARD, '-I' + os.path.join(REPO, 'include'), src,
                   '-o', exe + '.tmp', '-lpthread'])
     if rc != 0:
         raise BuildError('tsan scenarios do not build:\n' + out[-3000:])
